@@ -74,7 +74,12 @@ class MQTTTransport(Transport):
                 qos = 0
             tasks.append(self._subscribe(topic, qos))
 
-        await asyncio.gather(*tasks)
+        try:
+            await asyncio.gather(*tasks)
+        except BaseException:
+            # Don't leave a half open connection behind if we fail to subscribe.
+            await self._disconnect()
+            raise
 
     async def disconnect(self) -> None:
         """Disconnect the transport."""
